@@ -72,6 +72,41 @@ where Assets: miniscript::Satisfier<Pk>
     out.count(&format!("verdict mall={} nonmall={} sane={}", sn(mall), sn(nonmall), sane as u8));
 }
 
+fn twin_corpus(ctx: CtxK) -> Vec<Node> {
+    use Node::*;
+    let tap = ctx == CtxK::Tap;
+    let k = |i: u32| if tap { 200 + i } else { i };
+    let bx = |n: Node| Box::new(n);
+    let pk = |i: u32| Check(bx(PkK(k(i))));
+    let pkh = |i: u32| Check(bx(PkH(k(i))));
+    let m = |t: usize, ks: &[u32]| { let v: Vec<u32> = ks.iter().map(|i| k(*i)).collect(); if tap { MultiA(t, v) } else { Multi(t, v) } };
+    let sm = |t: usize, ks: &[u32]| { let v: Vec<u32> = ks.iter().map(|i| k(*i)).collect(); if tap { SortedMultiA(t, v) } else { SortedMulti(t, v) } };
+    // (left, right, third) over disjoint keys
+    let triples: Vec<(Node, Node, Node)> = vec![
+        (pk(0), pk(1), pk(2)),
+        (m(1, &[0, 1]), m(1, &[2, 3]), pk(4)),
+        (m(2, &[0, 1, 2]), m(2, &[3, 4, 5]), pk(6)),
+        (m(1, &[0, 1]), pk(2), pkh(3)),
+        (pk(0), m(2, &[1, 2]), m(1, &[3, 4])),
+        (sm(1, &[1, 0]), sm(2, &[9, 8, 2]), pkh(3)),
+        (pkh(0), m(1, &[1, 2]), pk(3)),
+    ];
+    let mut v = vec![];
+    for (x, y, z) in triples {
+        v.push(OrI(bx(x.clone()), bx(y.clone())));
+        v.push(OrD(bx(x.clone()), bx(y.clone())));
+        v.push(OrB(bx(x.clone()), bx(Alt(bx(y.clone())))));
+        v.push(AndV(bx(OrC(bx(x.clone()), bx(Verify(bx(y.clone()))))), bx(True)));
+        v.push(AndOr(bx(x.clone()), bx(y.clone()), bx(z.clone())));
+        v.push(Thresh(1, vec![x.clone(), Alt(bx(y.clone())), Alt(bx(z.clone()))]));
+        v.push(Thresh(2, vec![x.clone(), Alt(bx(y.clone())), Alt(bx(z.clone()))]));
+        v.push(OrI(bx(x.clone()), bx(AndV(bx(Verify(bx(y.clone()))), bx(Older(10))))));
+        v.push(OrD(bx(x.clone()), bx(AndV(bx(Verify(bx(y.clone()))), bx(After(100))))));
+        v.push(OrI(bx(AndV(bx(Verify(bx(x.clone()))), bx(z.clone()))), bx(y.clone())));
+    }
+    v
+}
+
 pub fn run(out: &mut Out, thorough: bool, seed: u64) {
     let mut rng = Rng(seed ^ 0xC02);
     ast::emit_defs(out);
@@ -103,18 +138,25 @@ pub fn run(out: &mut Out, thorough: bool, seed: u64) {
                 Box::new(pk(1)),
             ));
         }
-        for node in nodes {
+        // twin branches: two (or three) signed fragments over DISJOINT keys under every
+        // alternative-forming combinator, with every subset of the signatures - the cases in
+        // which the non-malleable chooser has two available candidates and must tell which of
+        // them carry a signature
+        let n_plain = nodes.len();
+        nodes.extend(twin_corpus(ctx));
+        for (idx, node) in nodes.into_iter().enumerate() {
+            let twin = idx >= n_plain;
             n_frag += 1;
             node.count_frags(out);
             let full = Assets::full(&node);
-            let nk = (full.ecdsa.len() + full.schnorr.len()).min(4) as u32;
+            let nk = (full.ecdsa.len() + full.schnorr.len()).min(if twin { 7 } else { 4 }) as u32;
             let np = full.pre.len().min(3) as u32;
             let mut txs = tx_values(&node);
             if txs.len() > 4 && !thorough { txs.truncate(4); }
             for (lt, sq) in txs {
                 for km in 0..(1u32 << nk) {
                     for pm in 0..(1u32 << np) {
-                        if !thorough && (km.count_ones() + pm.count_ones()) + 2 < nk + np && rng.below(3) != 0 { continue; }
+                        if !thorough && !twin && (km.count_ones() + pm.count_ones()) + 2 < nk + np && rng.below(3) != 0 { continue; }
                         let a = assets_for(&node, lt, sq, km, pm);
                         with_ctx!(ctx, one(out, ctx, &node, lt, sq, &a));
                     }
